@@ -53,6 +53,7 @@ var c14sigma = []string{
 	"\xef\xbf\xbd", // U+FFFD
 	"\xff",         // lone invalid byte
 	"\xed\xa0\x80", // 3-byte encoding of the surrogate code point U+D800 (ill-formed UTF-8)
+	"%",            // formatting directive, should the bytes ever pass through a printf format
 }
 
 // c14count = number of strings of length <= maxLen over the alphabet.
@@ -1213,7 +1214,7 @@ func (h *c14h) sequences() {
 
 func verifC14(c *drv.Ctx) {
 	c.R.Rule = "case = (result type, values of its string slots, numeric/optional slots) or (id sequence, logger, channel capacity); " +
-		"string slots range over all strings of length <= 3 (alone), <= 2 (pairs; thorough <= 3) and <= 1 (all together) over the 16-symbol alphabet " +
+		"string slots range over all strings of length <= 3 (alone), <= 2 (pairs; thorough <= 3) and <= 1 (all together) over the 17-symbol alphabet " +
 		"{a \" \\ / LF CR TAB NUL 0x1f 0x7f < e-acute U+2028 U+FFFD 0xff ED-A0-80}; every case is a different input; " +
 		"non-trivial = a varied string contains a symbol other than 'a' or a numeric/optional slot is off its baseline; for sequences: an id repeats"
 	if err := zzref.JSONSelfTest(); err != nil {
